@@ -46,10 +46,14 @@ def r1_credentials(ctx, fam):
                 t = U(strip_await(a))
                 if t == 'self.auth':
                     return kind != 'falsy'
-                if t == 'isinstance(self.auth, dict)':
-                    return kind == 'dict'
-                if t == 'isinstance(self.auth, list)':
-                    return kind == 'list'
+                sa = strip_await(a)
+                if isinstance(sa, ast.Call) and U(sa.func) == 'isinstance' \
+                        and len(sa.args) == 2 and \
+                        U(sa.args[0]) == 'self.auth':
+                    ty = sa.args[1]
+                    names = [U(x) for x in (ty.elts if isinstance(
+                        ty, ast.Tuple) else [ty])]
+                    return kind in names
                 if t in ('asyncio.iscoroutinefunction(self.auth)',
                          'iscoroutinefunction(self.auth)'):
                     return kind == 'copred'
@@ -64,8 +68,21 @@ def r1_credentials(ctx, fam):
                     return match
                 problems.append(t)
                 return None
-            run = run_function(f, ctx.model, oracle=oracle)
-            paths = [p for p in run.paths]
+            try:
+                run = run_function(f, ctx.model, oracle=oracle, max_iter=1)
+                paths = [p for p in run.paths]
+            except AnalysisError as e:
+                problems.append(str(e))
+                paths = []
+            if foreign:
+                for t in sorted(set(foreign))[:3]:
+                    ctx.bad(construct, 'foreign-comparison ' + kind,
+                            'for auth of kind %s the credential decision '
+                            'depends on `%s`, which is not the comparison '
+                            'that belongs to the kind (dict: equality with '
+                            'the configured credentials; list: membership; '
+                            'predicate: its result)' % (kind, t[:80]), w)
+                continue
             # config() internals fork on read_only/mode: those are nested
             # defs and not entered, so one path per row is expected
             if problems or len(paths) != 1:
@@ -74,11 +91,6 @@ def r1_credentials(ctx, fam):
                                     '%s/%s' % (construct, problems[:2],
                                                len(paths), kind, match))
             p = paths[0]
-            for t in foreign:
-                ctx.bad(construct, 'foreign-comparison ' + kind,
-                        'for auth of kind %s the credential decision '
-                        'depends on `%s`, which is not the comparison that '
-                        'belongs to the kind' % (kind, t), w)
             row = 'auth=%s credentials %s' % (
                 kind, 'match' if match else 'do not match')
             accept_expected = kind == 'falsy' or match
